@@ -176,12 +176,21 @@ def check_traj(traj, parent, taus, cell_counts):
     nc = cell_counts[0]
     try:
         m = MSM(arr, total_num_cells=nc)
-        allT = m.get_all_tau_transition_matrices(np.array(taus), noncorrelated_windows=False)
-        for t, T in zip(taus, allT):
-            E, _ = model_matrix(traj, t, False, nc)
-            if not np.allclose(np.asarray(T.toarray()), E, rtol=0, atol=TOL):
-                vs.append(viol(f"C12|traj={ts}|all_taus|tau={t}", "get_all_tau_transition_matrices differs from model",
-                               case))
+        # the multi-tau path: taus in ascending, descending and mixed order (with a repeat and an over-long lag), both modes
+        orders = [list(taus), list(taus)[::-1], [taus[-1], taus[0], taus[0], L + 2] + list(taus[1:-1])]
+        for oi, order in enumerate(orders):
+            for nonc in (False, True):
+                allT = m.get_all_tau_transition_matrices(np.array(order), noncorrelated_windows=nonc)
+                if len(allT) != len(order):
+                    vs.append(viol(f"C12|traj={ts}|all_taus|order={order}|length", "one matrix per requested tau expected", case))
+                    continue
+                for pos, (t, T) in enumerate(zip(order, allT)):
+                    E, _ = model_matrix(traj, t, nonc, nc)
+                    if not np.allclose(np.asarray(T.toarray()), E, rtol=0, atol=TOL):
+                        vs.append(viol(f"C12|traj={ts}|all_taus|order={order}|{'noncorr' if nonc else 'sliding'}|pos={pos}",
+                                       f"get_all_tau_transition_matrices: entry {pos} is not the matrix of tau={t}", case,
+                                       expected=E.tolist(), observed=np.asarray(T.toarray()).tolist()))
+                        break
     except Exception as e:
         vs.append(viol(f"C12|traj={ts}|all_taus|raises", f"{type(e).__name__}: {str(e)[:100]}", case))
     return vs
